@@ -25,10 +25,13 @@ type refLeaf struct {
 	Out     string
 }
 
-// findRef finds an accepted first candidate by forcing pseudo-random index
-// vectors; D is the smallest number of draws of a successful run.
+// findRef finds an accepted candidate and the number D of draws per candidate
+// without assuming either. Any successful forced run ends with an accepted
+// candidate, so its last D choices are one; D is the smallest divisor d of the
+// run's total number of draws for which forcing the last d choices (repeated
+// cyclically) succeeds after exactly d draws. (A smaller d cannot pass: the
+// first candidate alone consumes D > d draws. D itself passes.)
 func findRef(r spg.CharRecipe, key uint64, tries int) (*refLeaf, error) {
-	var best *refLeaf
 	for i := 0; i < tries; i++ {
 		k := ev.Mix64(key, uint64(i))
 		o := callForced(nil, func(j int, n uint32) uint32 { return uint32(ev.Mix64(k, uint64(j)) % uint64(n)) }, k, r.Generate)
@@ -41,22 +44,30 @@ func findRef(r spg.CharRecipe, key uint64, tries int) (*refLeaf, error) {
 		if o.Pw == nil {
 			continue
 		}
-		d := len(o.S.Draws)
-		if best == nil || d < best.D {
-			ch := make([]uint32, d)
-			for j, dr := range o.S.Draws {
-				ch[j] = dr.Choice
+		T := len(o.S.Draws)
+		if T == 0 {
+			return nil, &ev.Skip{Why: "generation makes no random choice"}
+		}
+		all := make([]uint32, T)
+		for j, dr := range o.S.Draws {
+			all[j] = dr.Choice
+		}
+		for d := 1; d <= T; d++ {
+			if T%d != 0 {
+				continue
 			}
-			best = &refLeaf{D: d, Choices: ch, Out: o.Pw.String()}
+			ch := append([]uint32{}, all[T-d:]...)
+			oo := callForced(ch, func(j int, n uint32) uint32 { return ch[j%d] }, k^0x77, r.Generate)
+			if oo.Panic != nil {
+				return nil, fmt.Errorf("Generate panicked: %v", oo.Panic)
+			}
+			if oo.Pw != nil && len(oo.S.Draws) == d {
+				return &refLeaf{D: d, Choices: ch, Out: oo.Pw.String()}, nil
+			}
 		}
-		if best != nil && i >= 8 && best.D <= r.Length {
-			break
-		}
+		return nil, &ev.Inc{Why: "could not determine the number of draws per candidate"}
 	}
-	if best == nil {
-		return nil, &ev.Skip{Why: "no accepted candidate found by forcing"}
-	}
-	return best, nil
+	return nil, &ev.Skip{Why: "no successful generation found by forcing"}
 }
 
 type cellResult struct {
